@@ -163,6 +163,7 @@ SPEC = {
         "cast_to_literal_dropped_changes_meaning",
         # vector layer (Thm/C01Vec.lean): shape-changing casts, swizzles, numeric constructors, component-wise operators
         "exporter_vec_shape_as_modelled", "swizzle_letters_are_identity", "vector_type_names_roundtrip",
+        "vector_intrinsic_table_is_identity",
         "gen_sem_vec_expr", "gen_sem_vec_expr_plain", "scalar_cast_then_widen_differs",
         "dropping_inner_shape_cast_changes_meaning", "literal_vector_cast_panics"]] + [
         # the text leg (printing the exported tree and reading it back) is property C09's; its table obligations are
